@@ -31,6 +31,9 @@ type Reply struct {
 	MinMs      int    `json:"min_interval_ms"`
 	RetryMs    int    `json:"retry_ms"`
 	DelayMs    int    `json:"delay_ms"`
+	// ConnectMs: how long the request takes to reach the tracker. An announce whose context is cancelled during that
+	// time was never seen by the tracker (a real client would have aborted the dial / the DNS lookup).
+	ConnectMs int `json:"connect_ms"`
 }
 type DiscCase struct {
 	Scripts []Script `json:"scripts"`
@@ -45,6 +48,7 @@ func genScript(t *rapid.T) Script {
 		r.MinMs = rapid.SampledFrom([]int{0, 0, 0, -1, -5000, 120, 250, 700}).Draw(t, "minint")
 		r.RetryMs = rapid.SampledFrom([]int{0, 200, 400}).Draw(t, "retry")
 		r.DelayMs = rapid.SampledFrom([]int{0, 0, 0, 20, 100}).Draw(t, "delay")
+		r.ConnectMs = rapid.SampledFrom([]int{0, 0, 0, 10, 60}).Draw(t, "connect")
 		s.Replies = append(s.Replies, r)
 	}
 	switch rapid.IntRange(0, 3).Draw(t, "complete") {
@@ -53,7 +57,11 @@ func genScript(t *rapid.T) Script {
 	case 1:
 		s.CompleteAtMs = 0
 	default:
-		s.CompleteAtMs = rapid.IntRange(1, 1500).Draw(t, "completeAt")
+		if rapid.Bool().Draw(t, "completeEarly") {
+			s.CompleteAtMs = rapid.IntRange(1, 80).Draw(t, "completeAt") // while the started announce is still in flight
+		} else {
+			s.CompleteAtMs = rapid.IntRange(1, 1500).Draw(t, "completeAt")
+		}
 	}
 	for i := rapid.IntRange(0, 3).Draw(t, "nneed"); i > 0; i-- {
 		s.NeedPeersAtMs = append(s.NeedPeersAtMs, rapid.IntRange(0, 1600).Draw(t, "needAt"))
@@ -73,6 +81,7 @@ func genDisc(t *rapid.T) DiscCase {
 }
 
 type obs struct {
+	issued  time.Time // when the client called Announce
 	at      time.Time
 	event   tracker.Event
 	replied time.Time
@@ -81,17 +90,28 @@ type obs struct {
 }
 
 type stubTr struct {
-	mu      sync.Mutex
-	script  *Script
-	log     []*obs
+	mu     sync.Mutex
+	script *Script
+	log    []*obs
+	issued int
 }
 
 func (s *stubTr) URL() string { return "stub://x" }
 func (s *stubTr) Announce(ctx context.Context, req tracker.AnnounceRequest) (*tracker.AnnounceResponse, error) {
 	s.mu.Lock()
-	n := len(s.log)
-	r := s.script.Replies[min(n, len(s.script.Replies)-1)]
-	o := &obs{at: time.Now(), event: req.Event, reply: r}
+	r := s.script.Replies[min(s.issued, len(s.script.Replies)-1)]
+	s.issued++
+	s.mu.Unlock()
+	issuedAt := time.Now()
+	if r.ConnectMs > 0 {
+		select {
+		case <-time.After(time.Duration(r.ConnectMs) * time.Millisecond):
+		case <-ctx.Done():
+			return nil, ctx.Err() // never reached the tracker
+		}
+	}
+	s.mu.Lock()
+	o := &obs{at: time.Now(), issued: issuedAt, event: req.Event, reply: r}
 	s.log = append(s.log, o)
 	s.mu.Unlock()
 	if r.DelayMs > 0 {
@@ -216,7 +236,7 @@ func runScript(s *Script) string {
 		if !o.ok || o.replied.IsZero() || nx.event != tracker.EventNone {
 			continue
 		}
-		if gap := nx.at.Sub(o.at); gap < minSeen-tolerance {
+		if gap := nx.issued.Sub(o.issued); gap < minSeen-tolerance { // the client's clock: when it issued the requests
 			return fmt.Sprintf("announces %d and %d are %v apart with no event between them; tracker replied interval=%dms min=%dms, client minimum %dms (smallest positive value so far %v)",
 				i, i+1, gap.Round(time.Millisecond), o.reply.IntervalMs, o.reply.MinMs, s.MinIntervalMs, minSeen)
 		}
